@@ -40,23 +40,21 @@ theorem shape_one (s s' : State) (og : Outgoing) (pkt : Packet) (he : s'.events 
 theorem nextPkidSt_events (s : State) : (nextPkidSt s).events = s.events := by
   unfold nextPkidSt; split <;> rfl
 
-theorem shape_publishTail (s0 s : State) (p : Pub) (he : s.events = s0.events) : Shape s0 (publishTail s p) := by
-  unfold publishTail
-  split
-  · split
-    · exact shape_nil _ _ _ he (Or.inr rfl)
-    · exact shape_one _ _ _ _ he rfl
-  · exact shape_one _ _ _ _ he rfl
+theorem storePub_events (s : State) (p : Pub) : (storePub s p).events = s.events := rfl
+
+theorem shape_publishTail (s0 s : State) (p : Pub) (he : s.events = s0.events) : Shape s0 (publishTail s p) :=
+  shape_one _ _ _ _ he rfl
 
 theorem shape_publishWithId (s0 s : State) (p : Pub) (he : s.events = s0.events) : Shape s0 (publishWithId s p) := by
   unfold publishWithId
   split
   · exact shape_nil _ _ _ he (Or.inr rfl)
-  · refine ⟨[.outgoing (.awaitAck p.pkid)], by simp [State.pushOut, State.pushEv, he], by simp [isIncomingEv], Or.inr ?_⟩
-    simp [announced, expectedAnn, isIncomingEv, isAwaitAck]
   · split
-    · exact shape_nil _ _ _ he (Or.inl rfl)
-    · exact shape_publishTail _ _ _ he
+    · refine ⟨[.outgoing (.awaitAck p.pkid)], by simp [State.pushOut, State.pushEv, he], by simp [isIncomingEv], Or.inr ?_⟩
+      simp [announced, expectedAnn, isIncomingEv, isAwaitAck]
+    · split
+      · exact shape_nil _ _ _ he (Or.inl rfl)
+      · exact shape_publishTail _ _ _ (by rw [storePub_events]; exact he)
 
 theorem shape_pubrelWithId (s0 s : State) (i : Nat) (he : s.events = s0.events) : Shape s0 (pubrelWithId s i) := by
   unfold pubrelWithId
@@ -85,12 +83,14 @@ theorem shape_handleOutgoing (s : State) (r : Request) : Shape s (handleOutgoing
   | publish p =>
     simp only [outgoingPublish]
     split
-    · exact shape_publishTail _ _ _ rfl
+    · exact shape_nil _ _ _ rfl (Or.inr rfl)
     · split
+      · exact shape_publishTail _ _ _ rfl
       · split
-        · exact shape_nil _ _ _ rfl (Or.inl rfl)
-        · exact shape_publishWithId _ _ _ (nextPkidSt_events s)
-      · exact shape_publishWithId _ _ _ rfl
+        · split
+          · exact shape_nil _ _ _ rfl (Or.inl rfl)
+          · exact shape_publishWithId _ _ _ (nextPkidSt_events s)
+        · exact shape_publishWithId _ _ _ rfl
   | pubrel i =>
     simp only [outgoingPubrel]
     split
@@ -116,29 +116,22 @@ theorem shape_handleOutgoing (s : State) (r : Request) : Shape s (handleOutgoing
   | pubrec i => exact shape_one _ _ _ _ rfl rfl
   | other => exact shape_nil _ _ _ rfl (Or.inl rfl)
 
-theorem shape_pubackCollision (s0 s : State) (i : Nat) (he : s.events = s0.events) : Shape s0 (pubackCollision s i) := by
-  unfold pubackCollision
+theorem shape_release (s0 s : State) (i : Nat) (he : s.events = s0.events) : Shape s0 (release s i) := by
+  unfold release
   split
   · split
-    · exact shape_one s0 { s with collision := none, outgoingPub := _, inflight := _, collisionPingCount := 0 } _ _ he rfl
+    · exact shape_one s0 (storePub { s with collision := none, collisionPingCount := 0 } _) _ _ he rfl
     · exact shape_nil _ _ _ he (Or.inr rfl)
   · exact shape_nil _ _ _ he (Or.inr rfl)
 
-theorem shape_handlePuback (s : State) (i r : Nat) : Shape s (handlePuback s i r) := by
+theorem shape_handlePuback (s : State) (i : Nat) : Shape s (handlePuback s i) := by
   unfold handlePuback
   split
   · exact shape_nil _ _ _ rfl (Or.inr rfl)
-  · have he : (if s.ver = Version.v4 then { s with lastPuback := i } else s).events = s.events := by
-      split <;> rfl
-    generalize (if s.ver = Version.v4 then { s with lastPuback := i } else s) = s1 at he
-    simp only
-    split
-    · exact shape_nil _ _ _ he (Or.inr rfl)
-    · split
-      · exact shape_nil _ _ _ he (Or.inl rfl)
-      · split
-        · exact shape_nil _ _ _ he (Or.inr rfl)
-        · exact shape_pubackCollision _ _ _ he
+  · exact shape_nil _ _ _ rfl (Or.inr rfl)
+  · split
+    · exact shape_nil _ _ _ rfl (Or.inl rfl)
+    · exact shape_release _ _ _ rfl
 
 theorem shape_handlePubrec (s : State) (i r : Nat) : Shape s (handlePubrec s i r) := by
   unfold handlePubrec
@@ -147,180 +140,60 @@ theorem shape_handlePubrec (s : State) (i r : Nat) : Shape s (handlePubrec s i r
   · exact shape_nil _ _ _ rfl (Or.inr rfl)
   · simp only
     split
-    · exact shape_nil _ _ _ rfl (Or.inr rfl)
+    · split
+      · exact shape_nil _ _ _ rfl (Or.inl rfl)
+      · exact shape_release _ _ _ rfl
     · split
       · exact shape_one s { s with outgoingPub := _, outgoingRel := _ } _ _ rfl rfl
       · exact shape_nil _ _ _ rfl (Or.inl rfl)
 
-theorem shape_handlePubrel (s : State) (i r : Nat) : Shape s (handlePubrel s i r) := by
+theorem shape_handlePubrel (s : State) (i : Nat) : Shape s (handlePubrel s i) := by
   unfold handlePubrel
   split
-  · simp only
-    split
-    · exact shape_nil _ _ _ rfl (Or.inr rfl)
-    · exact shape_one s { s with incomingPub := _ } _ _ rfl rfl
+  · exact shape_one s { s with incomingPub := _ } _ _ rfl rfl
   · exact shape_nil _ _ _ rfl (Or.inr rfl)
 
-theorem shape_handlePubcompV4 (s : State) (i : Nat) : Shape s (handlePubcompV4 s i) := by
-  unfold handlePubcompV4
+theorem shape_handlePubcomp (s : State) (i : Nat) : Shape s (handlePubcomp s i) := by
+  unfold handlePubcomp
   split
   · split
     · exact shape_nil _ _ _ rfl (Or.inl rfl)
-    · simp only
-      split
-      · split
-        · exact shape_one s { s with outgoingRel := _, inflight := _, collision := none, collisionPingCount := 0 } _ _ rfl rfl
-        · exact shape_nil _ _ _ rfl (Or.inr rfl)
-      · exact shape_nil _ _ _ rfl (Or.inr rfl)
+    · exact shape_release _ _ _ rfl
   · exact shape_nil _ _ _ rfl (Or.inr rfl)
 
+theorem publishAlias_events {s s1 : State} {p : InPub} (h : publishAlias s p = some s1) : s1.events = s.events := by
+  unfold publishAlias at h
+  split at h
+  · cases h; rfl
+  · split at h
+    · cases h; rfl
+    · split at h
+      · cases h; split <;> rfl
+      · split at h
+        · cases h; rfl
+        · cases h
 
-theorem pubcompTakeCollision_rel (s : State) (i j : Nat) : relContains (pubcompTakeCollision s i) j = relContains s j := by
-  unfold pubcompTakeCollision
-  split
-  · split <;> rfl
-  · rfl
-
-theorem shapeW_handlePubcompV5 (s : State) (i r : Nat) : ShapeW s (handlePubcompV5 s i r) := by
-  unfold handlePubcompV5
-  have h1 : ∃ outs : List Event, (pubcompTakeCollision s i).events = s.events ++ outs ∧ ∀ e ∈ outs, isIncomingEv e = false := by
-    unfold pubcompTakeCollision
-    split
-    · split
-      · exact ⟨[_], rfl, by simp [isIncomingEv]⟩
-      · exact ⟨[], by simp, by simp⟩
-    · exact ⟨[], by simp, by simp⟩
-  obtain ⟨outs, h1, h2⟩ := h1
-  simp only
-  split
-  · split
-    · exact ⟨outs, h1, h2⟩
-    · split
-      · exact ⟨outs, h1, h2⟩
-      · exact ⟨outs, h1, h2⟩
-  · exact ⟨outs, h1, h2⟩
-
-theorem shape_handlePubcompV5 (s : State) (i r : Nat) (hn : ¬ pubcompDropsCollision s i r) :
-    Shape s (handlePubcompV5 s i r) := by
-  unfold handlePubcompV5
-  simp only
-  by_cases hc : ∃ c, s.collision = some c ∧ c.pkid = i
-  · obtain ⟨c, hc1, hc2⟩ := hc
-    have hrel : relContains s i = true ∧ r = 0 := by
-      constructor
-      · cases h : relContains s i with
-        | true => rfl
-        | false => exact absurd ⟨c, hc1, hc2, Or.inl h⟩ hn
-      · cases Nat.decEq r 0 with
-        | isTrue h => exact h
-        | isFalse h => exact absurd ⟨c, hc1, hc2, Or.inr h⟩ hn
-    rw [pubcompTakeCollision_rel, hrel.1]
-    simp only [if_true, hrel.2]
-    have ht : pubcompTakeCollision s i = { s with collision := none, collisionPingCount := 0 }.pushOut (.publish c.pkid) := by
-      simp [pubcompTakeCollision, hc1, hc2]
-    have hk : pubcompTaken s i = some (.publish c) := by simp [pubcompTaken, hc1, hc2]
-    rw [ht, hk]
-    simp only [bne_self_eq_false, Bool.false_eq_true, if_false]
-    split
-    · exact ⟨[_], rfl, by simp [isIncomingEv], Or.inl rfl⟩
-    · refine ⟨[.outgoing (.publish c.pkid)], rfl, by simp [isIncomingEv], Or.inr ?_⟩
-      simp [announced, expectedAnn, isIncomingEv, isAwaitAck, outgoingOf]
-  · have ht : pubcompTakeCollision s i = s := by
-      unfold pubcompTakeCollision
-      split
-      · rename_i c hc1
-        split
-        · rename_i hc2; exact absurd ⟨c, hc1, hc2⟩ hc
-        · rfl
-      · rfl
-    have hk : pubcompTaken s i = none := by
-      unfold pubcompTaken
-      split
-      · rename_i c hc1
-        split
-        · rename_i hc2; exact absurd ⟨c, hc1, hc2⟩ hc
-        · rfl
-      · rfl
-    rw [ht, hk]
-    split
-    · split
-      · exact shape_nil _ _ _ rfl (Or.inr rfl)
-      · split
-        · exact shape_nil _ _ _ rfl (Or.inl rfl)
-        · exact shape_nil _ _ _ rfl (Or.inr rfl)
-    · exact shape_nil _ _ _ rfl (Or.inr rfl)
-
-
-theorem publishAlias_events (s : State) (p : InPub) (hn : ¬ unknownAlias s p) :
-    (publishAlias s p).events = s.events := by
-  unfold publishAlias
-  split
-  · rfl
-  · rename_i hv
-    split
-    · rfl
-    · rename_i a ha
-      split
-      · split <;> rfl
-      · rename_i he
-        split
-        · rfl
-        · rename_i hc
-          exfalso; apply hn
-          refine ⟨hv, a, ha, by simpa using he, by simpa using hc⟩
-
-theorem publishAlias_eventsW (s : State) (p : InPub) :
-    ∃ outs : List Event, (publishAlias s p).events = s.events ++ outs ∧ ∀ e ∈ outs, isIncomingEv e = false := by
-  unfold publishAlias
-  split
-  · exact ⟨[], by simp, by simp⟩
-  · split
-    · exact ⟨[], by simp, by simp⟩
-    · split
-      · split <;> exact ⟨[], by simp, by simp⟩
-      · split
-        · exact ⟨[], by simp, by simp⟩
-        · exact ⟨[_], rfl, by simp [isIncomingEv]⟩
-
-theorem shape_handlePublish_aux (s0 s : State) (p : InPub) (he : s.events = s0.events) :
-    Shape s0 (
-      if p.qos = 0 then (s, Outcome.ok none)
-      else if p.qos = 1 then
-        if !s.manualAcks then outgoingPuback s p.pkid else (s, .ok none)
-      else
-        let s1 := if s.incomingPub.contains p.pkid then s else { s with incomingPub := p.pkid :: s.incomingPub }
-        if !s1.manualAcks then outgoingPubrec s1 p.pkid else (s1, .ok none)) := by
-  split
-  · exact shape_nil _ _ _ he (Or.inr rfl)
-  · split
-    · split
-      · exact shape_one _ _ _ _ he rfl
-      · exact shape_nil _ _ _ he (Or.inr rfl)
-    · simp only
-      have he1 : (if s.incomingPub.contains p.pkid = true then s else { s with incomingPub := p.pkid :: s.incomingPub }).events = s0.events := by
-        split
-        · exact he
-        · exact he
-      generalize (if s.incomingPub.contains p.pkid = true then s else { s with incomingPub := p.pkid :: s.incomingPub }) = s1 at he1
-      split
-      · exact shape_one _ _ _ _ he1 rfl
-      · exact shape_nil _ _ _ he1 (Or.inr rfl)
-
-theorem shape_handlePublish (s : State) (p : InPub) (hn : ¬ unknownAlias s p) : Shape s (handlePublish s p) := by
+theorem shape_handlePublish (s : State) (p : InPub) : Shape s (handlePublish s p) := by
   unfold handlePublish
-  exact shape_handlePublish_aux s _ p (publishAlias_events s p hn)
-
-theorem shapeW_handlePublish (s : State) (p : InPub) : ShapeW s (handlePublish s p) := by
-  unfold handlePublish
-  obtain ⟨o1, h1, h2⟩ := publishAlias_eventsW s p
-  obtain ⟨o2, g1, g2, _⟩ := shape_handlePublish_aux (publishAlias s p) (publishAlias s p) p rfl
-  refine ⟨o1 ++ o2, ?_, ?_⟩
-  · simp only at g1 ⊢
-    rw [g1, h1, List.append_assoc]
-  · intro e he
-    rcases List.mem_append.mp he with h | h
-    · exact h2 e h
-    · exact g2 e h
+  split
+  · exact shape_one _ _ _ _ rfl rfl
+  · rename_i s1 hs1
+    have he := publishAlias_events hs1
+    split
+    · exact shape_nil _ _ _ he (Or.inr rfl)
+    · split
+      · split
+        · exact shape_one _ _ _ _ he rfl
+        · exact shape_nil _ _ _ he (Or.inr rfl)
+      · simp only
+        have he1 : (if s1.incomingPub.contains p.pkid = true then s1 else { s1 with incomingPub := p.pkid :: s1.incomingPub }).events = s.events := by
+          split
+          · exact he
+          · exact he
+        generalize (if s1.incomingPub.contains p.pkid = true then s1 else { s1 with incomingPub := p.pkid :: s1.incomingPub }) = s2 at he1
+        split
+        · exact shape_one _ _ _ _ he1 rfl
+        · exact shape_nil _ _ _ he1 (Or.inr rfl)
 
 theorem handleConnack_events (s : State) (ok : Bool) (rm am : Option Nat) :
     (handleConnack s ok rm am).1.events = s.events ∧ expectedAnn (handleConnack s ok rm am).2 = [] := by
@@ -329,53 +202,30 @@ theorem handleConnack_events (s : State) (ok : Bool) (rm am : Option Nat) :
   · exact ⟨rfl, rfl⟩
   · cases rm <;> cases am <;> exact ⟨rfl, rfl⟩
 
-
 /-- result of `handle_incoming_packet`: the packet is surfaced once, first, then only `Outgoing`
     events which announce exactly the packet returned -/
 def InShape (s0 : State) (p : Incoming) (r : State × Outcome) : Prop :=
   ∃ outs : List Event, r.1.events = s0.events ++ .incoming p :: outs ∧ (∀ e ∈ outs, isIncomingEv e = false) ∧
     (r.2 = .panic ∨ announced outs = expectedAnn r.2)
 
-def InShapeW (s0 : State) (p : Incoming) (r : State × Outcome) : Prop :=
-  ∃ outs : List Event, r.1.events = s0.events ++ .incoming p :: outs ∧ (∀ e ∈ outs, isIncomingEv e = false)
-
 theorem Shape.toIn {s0 : State} {p : Incoming} {r : State × Outcome} (h : Shape (s0.pushEv (.incoming p)) r) :
     InShape s0 p r := by
   obtain ⟨o, a, b, c⟩ := h
   exact ⟨o, by simp [a, State.pushEv], b, c⟩
 
-theorem ShapeW.toIn {s0 : State} {p : Incoming} {r : State × Outcome} (h : ShapeW (s0.pushEv (.incoming p)) r) :
-    InShapeW s0 p r := by
-  obtain ⟨o, a, b⟩ := h
-  exact ⟨o, by simp [a, State.pushEv], b⟩
-
-theorem shape_handleIncoming (s0 : State) (p : Incoming) (hn : ¬ announcesUnwritten s0 p) :
-    InShape s0 p (handleIncoming s0 p) := by
+/-- every incoming packet, both versions, every state -/
+theorem shape_handleIncoming (s0 : State) (p : Incoming) : InShape s0 p (handleIncoming s0 p) := by
   unfold handleIncoming
   simp only
   cases p with
   | pingresp => exact (shape_nil _ { s0.pushEv _ with awaitPingresp := false } _ rfl (Or.inr rfl)).toIn
-  | publish q =>
-    apply Shape.toIn
-    apply shape_handlePublish
-    intro hu
-    cases hv : s0.ver with
-    | v4 => have := hu.1; simp [State.pushEv, hv] at this
-    | v5 => exact hn ⟨hv, hu⟩
+  | publish q => exact (shape_handlePublish _ q).toIn
   | suback _ => exact (shape_nil _ _ _ rfl (Or.inr rfl)).toIn
   | unsuback _ => exact (shape_nil _ _ _ rfl (Or.inr rfl)).toIn
-  | puback i r => exact (shape_handlePuback _ i r).toIn
+  | puback i r => exact (shape_handlePuback _ i).toIn
   | pubrec i r => exact (shape_handlePubrec _ i r).toIn
-  | pubrel i r => exact (shape_handlePubrel _ i r).toIn
-  | pubcomp i r =>
-    apply Shape.toIn
-    simp only [handlePubcomp]
-    split
-    · exact shape_handlePubcompV4 _ i
-    · rename_i hv
-      apply shape_handlePubcompV5
-      intro hd
-      exact hn ⟨hv, hd⟩
+  | pubrel i r => exact (shape_handlePubrel _ i).toIn
+  | pubcomp i r => exact (shape_handlePubcomp _ i).toIn
   | connack ok sp rm am =>
     apply Shape.toIn
     simp only
@@ -390,43 +240,7 @@ theorem shape_handleIncoming (s0 : State) (p : Incoming) (hn : ¬ announcesUnwri
   | pingreq => exact (shape_nil _ _ _ rfl (Or.inr rfl)).toIn
   | auth => exact (shape_nil _ _ _ rfl (Or.inr rfl)).toIn
 
-theorem shapeW_handleIncoming (s0 : State) (p : Incoming) : InShapeW s0 p (handleIncoming s0 p) := by
-  unfold handleIncoming
-  simp only
-  cases p with
-  | publish q => exact (shapeW_handlePublish _ q).toIn
-  | pubcomp i r =>
-    apply ShapeW.toIn
-    simp only [handlePubcomp]
-    split
-    · exact (shape_handlePubcompV4 _ i).weak
-    · exact shapeW_handlePubcompV5 _ i r
-  | pingresp => exact (shape_nil _ { s0.pushEv _ with awaitPingresp := false } _ rfl (Or.inr rfl)).weak.toIn
-  | suback _ => exact (shape_nil _ _ _ rfl (Or.inr rfl)).weak.toIn
-  | unsuback _ => exact (shape_nil _ _ _ rfl (Or.inr rfl)).weak.toIn
-  | puback i r => exact (shape_handlePuback _ i r).weak.toIn
-  | pubrec i r => exact (shape_handlePubrec _ i r).weak.toIn
-  | pubrel i r => exact (shape_handlePubrel _ i r).weak.toIn
-  | connack ok sp rm am =>
-    apply ShapeW.toIn
-    simp only
-    split
-    · exact (shape_nil _ _ _ rfl (Or.inr rfl)).weak
-    · have := handleConnack_events (s0.pushEv (.incoming (.connack ok sp rm am))) ok rm am
-      exact (shape_nil _ _ _ this.1 (Or.inr this.2)).weak
-  | disconnect _ => apply ShapeW.toIn; simp only; split <;> exact (shape_nil _ _ _ rfl (Or.inr rfl)).weak
-  | connect => exact (shape_nil _ _ _ rfl (Or.inr rfl)).weak.toIn
-  | subscribe => exact (shape_nil _ _ _ rfl (Or.inr rfl)).weak.toIn
-  | unsubscribe => exact (shape_nil _ _ _ rfl (Or.inr rfl)).weak.toIn
-  | pingreq => exact (shape_nil _ _ _ rfl (Or.inr rfl)).weak.toIn
-  | auth => exact (shape_nil _ _ _ rfl (Or.inr rfl)).weak.toIn
-
 /-! ### panic-freedom of every incoming packet -/
-
-/-- tables and counter untouched -/
-def SFrame' (s s' : State) : Prop :=
-  s'.outgoingRel = s.outgoingRel ∧ s'.inflight = s.inflight ∧ s'.outgoingPub = s.outgoingPub
-
 
 theorem occ_pos_of_slot (l : List (Option Pub)) (i : Nat) (p : Pub) (h : l[i]? = some (some p)) : 0 < occ l := by
   have := occ_set_none l i p h; omega
@@ -434,100 +248,70 @@ theorem occ_pos_of_slot (l : List (Option Pub)) (i : Nat) (p : Pub) (h : l[i]? =
 theorem relCount_pos_of_bit (l : List Bool) (i : Nat) (h : l[i]? = some true) : 0 < relCount l := by
   have := relCount_set_false l i h; omega
 
-theorem handlePuback_noPanic {s : State} (h : SInv s) (i r : Nat) : (handlePuback s i r).2 ≠ .panic := by
+theorem release_noPanic (s : State) (i : Nat) : (release s i).2 ≠ .panic := by
+  unfold release
+  split
+  · split <;> simp
+  · simp
+
+theorem handlePuback_noPanic {s : State} (h : SInv s) (i : Nat) : (handlePuback s i).2 ≠ .panic := by
   unfold handlePuback
   split
   · simp
-  · rename_i slot hslot
-    have hinf : (if s.ver = Version.v4 then { s with lastPuback := i } else s).inflight = s.inflight := by
-      split <;> rfl
-    generalize (if s.ver = Version.v4 then { s with lastPuback := i } else s) = s1 at hinf
-    simp only
+  · simp
+  · rename_i x hslot
+    have := occ_pos_of_slot _ _ _ hslot
+    have := h.counter
     split
-    · simp
-    · rename_i p
-      have := occ_pos_of_slot _ _ _ hslot
-      have := h.counter
-      split
-      · omega
-      · split
-        · simp
-        · unfold pubackCollision
-          split
-          · split <;> simp
-          · simp
+    · omega
+    · exact release_noPanic _ _
 
 theorem handlePubrec_noPanic {s : State} (h : SInv s) (i r : Nat) : (handlePubrec s i r).2 ≠ .panic := by
   unfold handlePubrec
   split
   · simp
   · simp
-  · rename_i p hslot
+  · rename_i x hslot
+    have hpos := occ_pos_of_slot _ _ _ hslot
+    have hcnt := h.counter
+    have hlt := getElem?_lt_of_some hslot
+    have := h.lenPub; have := h.lenRel
     simp only
     split
-    · simp
+    · split
+      · rename_i h0
+        have h0' : s.inflight = 0 := h0
+        omega
+      · exact release_noPanic _ _
     · split
       · simp
-      · rename_i hlen
-        have : i < s.outgoingPub.length := by
-          rcases Nat.lt_or_ge i s.outgoingPub.length with h' | h'
-          · exact h'
-          · simp [List.getElem?_eq_none h'] at hslot
-        have := h.lenPub; have := h.lenRel
-        simp at hlen; omega
+      · rename_i hlen; simp at hlen; omega
 
-theorem handlePubrel_noPanic (s : State) (i r : Nat) : (handlePubrel s i r).2 ≠ .panic := by
+theorem handlePubrel_noPanic (s : State) (i : Nat) : (handlePubrel s i).2 ≠ .panic := by
   unfold handlePubrel
-  split
-  · simp only; split <;> simp
-  · simp
+  split <;> simp
 
-theorem handlePubcompV4_noPanic {s : State} (h : SInv s) (i : Nat) : (handlePubcompV4 s i).2 ≠ .panic := by
-  unfold handlePubcompV4
+theorem handlePubcomp_noPanic {s : State} (h : SInv s) (i : Nat) : (handlePubcomp s i).2 ≠ .panic := by
+  unfold handlePubcomp
   split
   · rename_i hc
     have := relCount_pos_of_bit _ _ ((relContains_eq s i).mp hc)
     have := h.counter
     split
     · omega
-    · simp only
-      split
-      · split <;> simp
-      · simp
-  · simp
-
-theorem pubcompTakeCollision_frame (s : State) (i : Nat) : SFrame' s (pubcompTakeCollision s i) := by
-  unfold pubcompTakeCollision SFrame'
-  split
-  · split <;> simp [State.pushOut, State.pushEv]
-  · simp
-
-theorem handlePubcompV5_noPanic {s : State} (h : SInv s) (i r : Nat) : (handlePubcompV5 s i r).2 ≠ .panic := by
-  unfold handlePubcompV5
-  simp only
-  obtain ⟨f1, f2, f3⟩ := pubcompTakeCollision_frame s i
-  split
-  · rename_i hc
-    have hp := relCount_pos_of_bit _ _ ((relContains_eq _ i).mp hc)
-    rw [f1] at hp
-    have hcnt := h.counter
-    split
-    · simp
-    · split
-      · rename_i h0
-        have h0' : (pubcompTakeCollision s i).inflight = 0 := h0
-        rw [f2] at h0'; omega
-      · simp
+    · exact release_noPanic _ _
   · simp
 
 theorem handlePublish_noPanic (s : State) (p : InPub) : (handlePublish s p).2 ≠ .panic := by
   unfold handlePublish
-  simp only
   split
-  · simp
-  · split
-    · split <;> simp [outgoingPuback]
-    · split <;> split <;> simp [outgoingPubrec]
+  · simp [outgoingDisconnect]
+  · simp only
+    split
+    · simp
+    · split
+      · split <;> simp [outgoingPuback]
+      · split <;> split <;> simp [outgoingPubrec]
 
 /-- C10: no incoming packet of any type or id makes the state machine panic -/
 theorem handleIncoming_noPanic {s : State} (h : SInv s) (p : Incoming) : (handleIncoming s p).2 ≠ .panic := by
@@ -540,14 +324,10 @@ theorem handleIncoming_noPanic {s : State} (h : SInv s) (p : Incoming) : (handle
   | publish q => exact handlePublish_noPanic _ q
   | suback _ => simp
   | unsuback _ => simp
-  | puback i r => exact handlePuback_noPanic h0 i r
+  | puback i r => exact handlePuback_noPanic h0 i
   | pubrec i r => exact handlePubrec_noPanic h0 i r
-  | pubrel i r => exact handlePubrel_noPanic _ i r
-  | pubcomp i r =>
-    simp only [handlePubcomp]
-    split
-    · exact handlePubcompV4_noPanic h0 i
-    · exact handlePubcompV5_noPanic h0 i r
+  | pubrel i r => exact handlePubrel_noPanic _ i
+  | pubcomp i r => exact handlePubcomp_noPanic h0 i
   | connack ok sp rm am =>
     simp only
     split
